@@ -200,6 +200,22 @@ def run(ctx):
                     problems.append(f"reads mutable global {r[2]}")
             if isinstance(n, ast.Attribute) and isinstance(n.value, ast.Name) and n.value.id == "self":
                 problems.append("reads self state")
+        # file reads: a file shipped with the package (path anchored on a module constant derived from __file__) is
+        # immutable data; a file NAMED BY AN ARGUMENT is external state that is not part of the cache key
+        for n in walk_own(f.node):
+            if isinstance(n, ast.Call) and (call_name(n) in ("open", "read_text", "read_bytes")):
+                path_expr = n.args[0] if (call_name(n) == "open" and n.args) else (n.func.value if isinstance(n.func, ast.Attribute) else None)
+                anchored = False
+                if path_expr is not None:
+                    from ..astutil import subst_locals
+                    path_expr = subst_locals(path_expr, f.node)
+                for nm in ast.walk(path_expr) if path_expr is not None else ():
+                    if isinstance(nm, ast.Name):
+                        r = repo.resolve_name(f.module, nm.id)
+                        if r and r[0] == "const" and any("__file__" in norm(st) for st in r[1].assigns.get(r[2], [])):
+                            anchored = True
+                if not anchored:
+                    problems.append(f"reads a file whose path is not anchored in the package ({norm(path_expr)[:30] if path_expr is not None else '?'}): its content is not part of the cache key")
         ident_params = [p for p in params if p in ("survey", "self", "element", "context")]
         r2.check(not problems, f"{f.fq}", "memoised function only reads its parameters, immutable constants and files shipped with the package; no writes",
                  f.loc(), why_fail="; ".join(problems))
